@@ -18,16 +18,18 @@ import (
 // C15 — image type conversion helpers equal draw.Draw(Src).
 
 type c15Cell struct {
-	Helper string `json:"helper"` // ToNRGBA ToRGBA ToRGBA64
-	Src    string `json:"src"`
-	Sub    bool   `json:"src_is_subimage"`
-	W      int    `json:"w"`
-	H      int    `json:"h"`
-	OX     int    `json:"origin_x"`
-	OY     int    `json:"origin_y"`
-	Par    int    `json:"parallelism"`
-	Seed   uint64 `json:"content_seed"`
-	Full   string `json:"full,omitempty"` // thorough: "ycbcr24" = all 2^24 YCbCr triples, "nrgba16" = all (c,a) pairs
+	Helper  string `json:"helper"` // ToNRGBA ToRGBA ToRGBA64
+	Src     string `json:"src"`
+	Sub     bool   `json:"src_is_subimage"`
+	W       int    `json:"w"`
+	H       int    `json:"h"`
+	OX      int    `json:"origin_x"`
+	OY      int    `json:"origin_y"`
+	Par     int    `json:"parallelism"`
+	Seed    uint64 `json:"content_seed"`
+	Content int    `json:"content_mode,omitempty"`
+	Band    bool   `json:"full_width_band,omitempty"`
+	Full    string `json:"full,omitempty"` // thorough: "ycbcr24" = all 2^24 YCbCr triples, "nrgba16" = all (c,a) pairs
 }
 
 var c15SrcKinds = []string{"NRGBA", "RGBA", "NRGBA64", "RGBA64", "YCbCr444", "YCbCr422", "YCbCr420", "YCbCr440", "YCbCr411", "YCbCr410", "NYCbCrA", "Gray", "Gray16", "Alpha", "Alpha16", "CMYK", "Paletted", "Uniform", "opaque"}
@@ -76,7 +78,14 @@ func c15Source(c c15Cell) image.Image {
 		return m
 	}
 	r := image.Rect(c.OX, c.OY, c.OX+c.W, c.OY+c.H)
-	return newSource(c.Src, r, c.Sub, rng)
+	mode := 0
+	if c.Sub {
+		mode = 1
+	}
+	if c.Band {
+		mode = 2
+	}
+	return newSourceMode(c.Src, r, mode, c.Content, rng)
 }
 
 func c15Run(c c15Cell) (bad bool, msg string) {
@@ -179,6 +188,22 @@ func c15Cells(seed int64, thorough, race bool) []c15Cell {
 			}
 		}
 	}
+	// constant contents (all zero / all 0xFF planes), runs of equal pixels, full-width bands
+	for _, h := range c15Helpers {
+		for _, sk := range c15SrcKinds {
+			if sk == "Uniform" {
+				continue
+			}
+			for _, content := range []int{1, 2, 3} {
+				for _, par := range []int{1, 2, 3, 7} {
+					if race && (par == 1 || !c15HandWritten(h, sk)) {
+						continue
+					}
+					cells = append(cells, c15Cell{Helper: h, Src: sk, Sub: content == 1, Band: content == 3, W: 9, H: 8, OX: 2, OY: 4, Par: par, Content: content, Seed: rng.U64()})
+				}
+			}
+		}
+	}
 	if thorough && !race {
 		for _, h := range c15Helpers {
 			cells = append(cells,
@@ -208,7 +233,7 @@ func runC15(r *core.Run) {
 		bad, msg := c15Run(c)
 		r.AddEvals(1)
 		if (c.OX != 0 || c.OY != 0 || c.Sub || c15HandWritten(c.Helper, c.Src)) && (c.W*c.H > 0 || c.Full != "") {
-			r.NT(fmt.Sprintf("%s|%s|%v|%dx%d@%d,%d|%d|%s", c.Helper, c.Src, c.Sub, c.W, c.H, c.OX, c.OY, c.Par, c.Full))
+			r.NT(fmt.Sprintf("%s|%s|%v|%v|%d|%dx%d@%d,%d|%d|%s", c.Helper, c.Src, c.Sub, c.Band, c.Content, c.W, c.H, c.OX, c.OY, c.Par, c.Full))
 		}
 		if bad {
 			r.Violate("cell", c.Helper+"<-"+c.Src, msg, c)
